@@ -648,6 +648,71 @@ fn main_check(ctx: &Ctx) -> Outcome {
         out.push_part(json!({"system":"console: sequences containing a code the statement leaves out (5, 6, 22-29, 59)","sequences":cases.len()}));
     }
 
+    // every chunk of <= 2 bytes over ALL 256 byte values, written after each of ~100 prefixes (default / styled state,
+    // then one class byte: the parser in every kind of state): the console must receive the model's cells
+    {
+        let (alpha, _) = vchecks::common::class_alphabet();
+        let mut prefixes: Vec<Vec<u8>> = vec![];
+        for p in [&b""[..], b"\x1b[1;31;44m"] {
+            prefixes.push(p.to_vec());
+            for &a in &alpha {
+                let mut v = p.to_vec();
+                v.push(a);
+                prefixes.push(v);
+            }
+        }
+        let chunks: Vec<Vec<u8>> = (0..=255u8).map(|a| vec![a]).chain((0..=255u8).flat_map(|a| (0..=255u8).map(move |b| vec![a, b]))).collect();
+        let bad = std::sync::Mutex::new(Vec::<Finding>::new());
+        let runs = AtomicU64::new(0);
+        chunks.par_iter().for_each(|c| {
+            for prefix in &prefixes {
+                let mut model = RunModel::default();
+                let exp_prefix = expected_cells(&mut model, prefix);
+                let exp = expected_cells(&mut model, c);
+                if model.ill_formed {
+                    continue;
+                }
+                runs.fetch_add(1, Ordering::Relaxed);
+                let r = guard(|| {
+                    let sh = Rc::new(RefCell::new(Shared::default()));
+                    let mut stream = WinconStream::new(Console(sh.clone()));
+                    stream.write_all(prefix).map_err(|e| format!("write_all failed on a console that accepts everything: {e}"))?;
+                    stream.write_all(c).map_err(|e| format!("write_all failed on a console that accepts everything: {e}"))?;
+                    let shb = sh.borrow();
+                    if let Some(b) = shb.bad_byte {
+                        return Err(format!("control byte 0x{b:02x} was passed to the console as text"));
+                    }
+                    let want: Vec<_> = exp_prefix.iter().chain(exp.iter()).copied().collect();
+                    if shb.cells != want {
+                        let gt: Vec<u8> = shb.cells.iter().map(|c| c.2).collect();
+                        let et: Vec<u8> = want.iter().map(|c| c.2).collect();
+                        let what = if gt != et { "text handed to the console differs" } else { "console colours differ" };
+                        return Err(format!("{what}: write_all({}); write_all({}) -> console got {:?}, expected {:?}", show(prefix), show(c), summarize(&shb.cells), summarize(&want)));
+                    }
+                    Ok(())
+                })
+                .and_then(|r| r);
+                if let Err(m) = r {
+                    let mut v = bad.lock().unwrap();
+                    if v.len() < 60 {
+                        v.push(Finding {
+                            system: "anstream::WinconStream/all-2-byte-chunks".into(),
+                            clause: clause_of(&m),
+                            case: vec![show(prefix), show(c)],
+                            message: m,
+                            replay: json!({"kind":"sweep","chunk":hex(&[&prefix[..], &c[..]].concat())}),
+                        });
+                    }
+                }
+            }
+        });
+        let mut b = bad.into_inner().unwrap();
+        b.sort_by_key(|f| (f.case[0].len() + f.case[1].len(), f.key()));
+        b.truncate(12);
+        out.findings.extend(b);
+        out.push_part(json!({"system":"console: every chunk of <= 2 bytes over all 256 byte values after each prefix","prefixes":prefixes.len(),"chunks":chunks.len(),"runs":runs.load(Ordering::Relaxed)}));
+    }
+
     // large buffers: sizes around 8 KiB (std's console writers cut there) and beyond, an escape sequence or a
     // multi-byte character straddling every offset near the cut, through every entry point driven by the standard protocol
     {
